@@ -250,9 +250,15 @@ def run(M, rec, tier, seed, k, n):
         one_network(M, rec, rng, g, desc, built, tier)
     rec.extra["exhaustive_small_nmax"] = nmax
     sh = W.shapes_cycle()
-    for _ in range(70 if tier == "quick" else 500):
+    for it in range(70 if tier == "quick" else 500):
         shp, desc, built = W.make_net(M, g, next(sh), rng)
         rec.seen("shapes", shp)
+        if shp == "allkinds":
+            rec.count("allkinds_seen")
+        if shp == "allkinds" and rec.counters.get("allkinds_seen", 0) % 2 == 1:
+            desc, ncl = G.clash_names(desc, rng)
+            built = D.build(M, desc, D.random_ops(desc, rng))
+            rec.count("networks_with_clashing_names", 1 if ncl else 0)
         one_network(M, rec, rng, g, desc, built, tier)
     if rec.counters.get("valid_networks", 0) <= 3:
         pass
